@@ -33,7 +33,8 @@ RULE = ("static: one obligation per estimator class (frame analysis) and per pub
         "scatter_points, make_xarray_grid) valid arguments with exactly one injected inconsistency (one coordinate / data / weight "
         "shape, weight or name count, both or neither of shape and spacing, inverted or wrong-length region, 3 spacing values) and the "
         "valid controls (incl. raveled 1-D weights for 2-D data), 1-D and 2-D shapes; dynamic: every estimator class x 1..4 fits on data sets of different sizes compared with a "
-        "fresh estimator, clone / get_params / set_params round trips, predict-like calls on unfitted instances, every public function "
+        "fresh estimator, refits on a data set with the SAME size and bounding box as the previous one (permuted order / same extreme points, "
+        "other interior), compared bit for bit, clone / get_params / set_params round trips, predict-like calls on unfitted instances, every public function "
         "and estimator method with argument bytes hashed before/after (writable and read-only arrays) and called twice. "
         "Non-trivial = the call is expected to succeed or is a single-fault rejection; distinct = distinct (entry, arguments).")
 ASSUMPTIONS = [
@@ -676,6 +677,148 @@ def _history(vd, rnd, tier):
     return cases
 
 
+def _identical(p, q):
+    """bit-for-bit equality of predictions (NaN == NaN)"""
+    if isinstance(p, (tuple, list)) != isinstance(q, (tuple, list)):
+        return False
+    if isinstance(p, (tuple, list)):
+        return len(p) == len(q) and all(_identical(x, y) for x, y in zip(p, q))
+    a, b = np.asarray(p), np.asarray(q)
+    return a.shape == b.shape and a.dtype == b.dtype and a.tobytes() == b.tobytes()
+
+
+def _lattice_dataset(rnd, n):
+    """n distinct points on a 1/8 lattice in [0,10]x[-5,5] with data and weights (short exact literals for replays)"""
+    pts = set()
+    while len(pts) < n:
+        pts.add((rnd.randint(0, 80) / 8.0, rnd.randint(-40, 40) / 8.0))
+    pts = sorted(pts)
+    rnd.shuffle(pts)
+    e = np.array([p[0] for p in pts])
+    no = np.array([p[1] for p in pts])
+    d = np.array([round(3.0 + 0.5 * x - 0.25 * y + np.sin(x) * np.cos(y), 3) for x, y in pts])
+    w = np.array([rnd.randint(4, 16) / 8.0 for _ in pts])
+    return e, no, d, w
+
+
+def _same_bbox(rnd, A, variant):
+    """a data set with the SAME number of points and the SAME bounding box as A"""
+    e, no, d, w = A
+    n = e.size
+    if variant == "permuted":
+        perm = list(range(n))
+        while perm == list(range(n)):
+            rnd.shuffle(perm)
+        perm = np.array(perm)
+        return e[perm], no[perm], d[perm], w[perm]
+    # the extreme points are kept (so bounding box and count are equal), the interior is new
+    keep = sorted({int(np.argmin(e)), int(np.argmax(e)), int(np.argmin(no)), int(np.argmax(no))})
+    pts = {(float(e[i]), float(no[i])) for i in keep}
+    lo_e, hi_e, lo_n, hi_n = e.min(), e.max(), no.min(), no.max()
+    guard = 0
+    while len(pts) < n and guard < 10000:
+        guard += 1
+        x, y = rnd.randint(0, 80) / 8.0, rnd.randint(-40, 40) / 8.0
+        if lo_e <= x <= hi_e and lo_n <= y <= hi_n:
+            pts.add((x, y))
+    pts = sorted(pts)
+    rnd.shuffle(pts)
+    e2 = np.array([p[0] for p in pts])
+    n2 = np.array([p[1] for p in pts])
+    d2 = np.array([round(-1.0 + 0.125 * x * y + np.cos(x), 3) for x, y in pts])
+    w2 = np.array([rnd.randint(4, 16) / 8.0 for _ in pts])
+    return e2, n2, d2, w2
+
+
+_MK_SRC = {
+    "Trend": "vd.Trend(2)", "Spline": "vd.Spline(damping=1e-4)", "SplineCV": "vd.SplineCV(dampings=(1e-4, 1e-2))",
+    "KNeighbors": "vd.KNeighbors(k=3)", "Linear": "vd.Linear()", "Cubic": "vd.Cubic()", "ScipyGridder": "vd.ScipyGridder(method='nearest')",
+    "Chain": "vd.Chain([('trend', vd.Trend(1)), ('reduce', vd.BlockReduce(np.average, spacing=1.0)), ('spline', vd.Spline(damping=1e-3))])",
+    "Vector": "vd.Vector([vd.Trend(1), vd.Spline(damping=1e-3)])",
+    "VectorSpline2D": "vd.VectorSpline2D(poisson=0.4, mindist=2.0, damping=1e-3, force_coords=FC)",
+}
+
+
+def _history_same_bbox(vd, rnd, tier):
+    """refits where the new data set has the same size and bounding box as the previous one (permuted order, or other
+    interior points with the same extreme points): anything a fit might be tempted to cache on (count, region) is wrong here.
+    Compared BIT FOR BIT with a fresh estimator; the data are embedded in the replay."""
+    cases = []
+    ests = _estimators(vd)
+    reps = 1 if tier == "quick" else 5
+    probe = (np.array([0.5, 2.25, 4.0, 5.75, 7.5, 9.25]), np.array([-4.5, -2.0, 0.25, 1.5, 3.0, 4.5]))
+
+    def lit(a):
+        return "np.array(%r)" % (np.asarray(a).tolist(),)
+
+    with warnings.catch_warnings():
+        warnings.simplefilter("ignore")
+        for name, (mk, vector) in ests.items():
+            for rep in range(reps):
+                for variant in ("permuted", "same-extremes", "permuted-then-back"):
+                    for weighted in ((False, True) if name in ("Trend", "Spline", "VectorSpline2D", "Vector", "Chain") and rep % 2 == 0 else (False,)):
+                        n = rnd.choice([12, 14, 16])
+                        A = _lattice_dataset(rnd, n)
+                        if variant == "permuted-then-back":
+                            seq = [A, _same_bbox(rnd, A, "same-extremes"), _same_bbox(rnd, A, "permuted")]
+                        else:
+                            seq = [A, _same_bbox(rnd, A, variant)]
+                        inp = {"estimator": name, "variant": variant, "weighted": weighted, "n_points": n,
+                               "datasets": [{"easting": ds[0].tolist(), "northing": ds[1].tolist(), "data": ds[2].tolist(),
+                                             "weights": ds[3].tolist() if weighted else None} for ds in seq]}
+                        try:
+                            est = mk()
+                            for ds in seq:
+                                est.fit(*_fitargs(ds, vector, weighted))
+                            if name == "VectorSpline2D":
+                                fc = tuple(np.ravel(x).copy() for x in seq[0][:2])
+                                fresh = vd.VectorSpline2D(poisson=0.4, mindist=2.0, damping=1e-3, force_coords=fc)
+                            else:
+                                fresh = mk()
+                            last = seq[-1]
+                            fresh.fit(*_fitargs(last, vector, weighted))
+                            at_data = (last[0], last[1])
+                            same = (_identical(est.predict(probe), fresh.predict(probe)) and _identical(est.predict(at_data), fresh.predict(at_data))
+                                    and _identical(tuple(float(x) for x in est.region_), tuple(float(x) for x in fresh.region_)))
+                            out = {"identical_to_fresh": same}
+                        except Exception as exc:      # noqa
+                            same, out = False, {"error": "%s: %s" % (type(exc).__name__, str(exc)[:160])}
+
+                        def args_src(ds):
+                            if vector:
+                                return "(%s, %s), (%s, 2.0 - %s), %s" % (lit(ds[0]), lit(ds[1]), lit(ds[2]), lit(ds[2]),
+                                                                          "(%s, %s)" % (lit(ds[3]), lit(ds[3])) if weighted else "None")
+                            return "(%s, %s), %s, %s" % (lit(ds[0]), lit(ds[1]), lit(ds[2]), lit(ds[3]) if weighted else "None")
+                        mk_src = _MK_SRC[name]
+                        fresh_src = mk_src.replace("FC", "(%s, %s)" % (lit(seq[0][0]), lit(seq[0][1])))
+                        repro = ("import warnings; warnings.simplefilter('ignore'); import numpy as np, verde as vd; "
+                                 "est = %s; " % mk_src.replace(", force_coords=FC", "")
+                                 + "".join("est.fit(%s); " % args_src(ds) for ds in seq)
+                                 + "fresh = %s; fresh.fit(%s); " % (fresh_src, args_src(seq[-1]))
+                                 + "p = (%s, %s); a, b = est.predict(p), fresh.predict(p); " % (lit(seq[-1][0]), lit(seq[-1][1]))
+                                 + "print('refitted:', a); print('fresh:   ', b); print('identical:', np.array_equal(np.asarray(a), np.asarray(b), equal_nan=True))")
+                        cases.append(Case(inp, out, "mk_verdict true %s" % cbool(same), repro, "refit-same-bbox", nontrivial=True))
+        # stateless reducers: one object used on A then on a same-bbox B must answer like a fresh object
+        for name, mk in {"BlockReduce": lambda: vd.BlockReduce(np.median, spacing=2.0), "BlockMean": lambda: vd.BlockMean(spacing=2.0)}.items():
+            for rep in range(reps):
+                for variant in ("permuted", "same-extremes"):
+                    A = _lattice_dataset(rnd, 24)
+                    B = _same_bbox(rnd, A, variant)
+                    inp = {"estimator": name, "variant": variant, "method": "filter",
+                           "datasets": [{"easting": ds[0].tolist(), "northing": ds[1].tolist(), "data": ds[2].tolist()} for ds in (A, B)]}
+                    try:
+                        obj = mk()
+                        obj.filter((A[0], A[1]), A[2])
+                        same = _snap(obj.filter((B[0], B[1]), B[2])) == _snap(mk().filter((B[0], B[1]), B[2]))
+                        out = {"identical_to_fresh": same}
+                    except Exception as exc:      # noqa
+                        same, out = False, {"error": "%s: %s" % (type(exc).__name__, str(exc)[:160])}
+                    cases.append(Case(inp, out, "mk_verdict true %s" % cbool(same),
+                                      "# %s: o.filter(A); o.filter(B) vs fresh.filter(B) with the data sets of this replay" % name,
+                                      "refit-same-bbox", nontrivial=True))
+    return cases
+
+
 def _calls(vd, rnd):
     """catalogue of public calls: name -> builder() -> (callable, args tuple, kwargs)  (fresh arguments each time)"""
     import xarray as xr
@@ -834,8 +977,22 @@ def generate(tier, seed):
     cases = _static_cases()
     cases += _malformed(vd, rnd, tier)
     cases += _history(vd, rnd, tier)
+    cases += _history_same_bbox(vd, rnd, tier)
     cases += _purity(vd, rnd, tier)
     return cases
+
+
+def search(disagreeing, tier, seed):
+    """an obligation broke (or a model disagreed) without a failing input in the default run: look harder with
+    the dynamic history / purity streams at thorough size and other seeds"""
+    import verde as vd
+    out = []
+    for k in (1, 2):
+        rnd = random.Random(seed + k)
+        out += _history_same_bbox(vd, rnd, "thorough")
+        out += _history(vd, rnd, "thorough")
+        out += _purity(vd, rnd, "quick")
+    return out
 
 
 def finding_key(case):
